@@ -188,7 +188,7 @@ def run(rep):
     readall = vlib.compile_harness("readAll", "asan")
     mk = vlib.compile_harness("mkArchive", "asan")
     arcs = readcore.writer_archives(mk)
-    arcs += readcore.reference_archives(20000 if quick else 400000, limit=24 if quick else None)
+    arcs += readcore.reference_archives(30000 if quick else 400000, limit=70 if quick else None)
     rcases, meta = [], []
     for name, arc in arcs:
         small = len(arc) <= (6000 if quick else 8000)
